@@ -116,7 +116,7 @@ struct State {
     bool dumped = false;
     bool exhaustive = false;
     size_t max_violations = 25;
-    size_t max_distinct_dump = 400000;
+    size_t max_distinct_dump = 50000;   // per worker; the rest is reported as a count only
 };
 
 inline State& st() { static State s; return s; }
